@@ -488,6 +488,16 @@ Theorem rethrow_returns_to_caller s ip' len' s' :
     stk s' = firstn (P s - 5) (stk s) ++ [SVal].
 Proof. intros H. apply rethrow_returns_to_caller_inv. now apply reachable_Inv. Qed.
 
+(* the table covers every address at which a fault can be observed, and every call site an
+   exception can be rethrown to: the machine never looks up an address that lies in no block
+   (exception_tab_search returning NULL: assert / NULL dereference in the VM) *)
+Theorem every_fault_has_a_handler s ip' len' c :
+  reachable s -> stepm s ip' len' <> Crash c.
+Proof.
+  intros H E. pose proof (step_ok prog exct metas entry certs CHK s ip' len' (reachable_Inv _ H)) as G.
+  rewrite E in G. exact G.
+Qed.
+
 Theorem unhandled_reached_only_at_top s ip' len' :
   reachable s -> code (ip s) = Some AUnhandled ->
   cur s = 0 /\ P s = 0 /\ stepm s ip' len' = Stop.
